@@ -442,6 +442,9 @@ var guards = []guard{
 		params: []param{I("lag", "lag"), I("delay", "delay")}, result: "Bool",
 		doc: "consume: wait for the lag"},
 	// ---- eventfilter.go
+	{name: "awaitSkip", file: "await.go", fn: "awaitWorkflowStatusByForeignID", kind: "if", mentions: []string{"shouldFilter"}, index: 0,
+		params: []param{B("shouldFilter", "filtered"), I("e.Type", "ty"), I("status", "status")}, result: "Bool",
+		doc: "Await: skip (acknowledge and keep waiting) unless the event is for this run and was written at the awaited status"},
 	{name: "shardActive", file: "eventfilter.go", fn: "shardFilter", kind: "if", mentions: []string{"totalShards"}, index: 0,
 		params: []param{I("totalShards", "total")}, result: "Bool",
 		doc: "shardFilter: sharding only with more than one shard"},
